@@ -15,12 +15,18 @@
 //	    fields / single leaves / maps changed in place / SetRecords* called again) and written
 //	    again, and a decoded pack read, changed in one place and written, always yields the bytes
 //	    of a FRESH object holding the same current field values
+//	(9) the environment (env.go): all of the above with every environment variable golib reads
+//	    set to non-zero / non-empty values (for the case, and from process start in a child)
+//	(10) payload redundancy of the compressed containers (redundancy.go): incompressible,
+//	    ordinary, byte-identical records, long runs of one byte: ratios from < 1 to > 1000 : 1
 //
 // Finding keys: <Type>.<field pattern>:<kind>, kind ∈ not-restored, not-consumed,
 // reencode-differs, decode-panics, not-carried, records-differ, records-not-stamped,
 // encoding-depends-on-history (<Type>:<kind> where no single field applies;
 // <Type>:reencode-differs/<stage> for (7)). A difference inside a nested pack is keyed
-// by the inner pack's type.
+// by the inner pack's type. (8): <Type>.<field>:not-restored/used-object (header fields under
+// AbstractPack), <Type>:decode-panics|not-consumed|reencode-differs/used-object,
+// <Type>.<field>:handed-out-altered-by-later-read; (9): <Type>:bytes-depend-on-environment.
 package main
 
 import (
@@ -781,7 +787,7 @@ func main() {
 		}
 	}
 	sort.Strings(nestedTypes)
-	nReuse, nEnv := c.N(60, 2000), c.N(40, 1500)
+	nEnv := c.N(40, 1500)
 	if envInitChild() {
 		// started by runEnvInitChild with the variables in the environment from the start: only the
 		// env/<Type> sections (a smaller share), no floors
@@ -802,19 +808,8 @@ func main() {
 		totalPatterns += len(pats)
 		c.Cases("sweep/"+name, len(pats), func(i int, r *vlib.Rand) { sweep(ts, pats[i], i, r) })
 	}
-	reuseTypes := 0 // types with their own Read
-	reuseTotal := int64(0)
 	for _, name := range names {
 		ts := man.T(name)
-		if ts.Class == "pack" || ts.Class == "element" {
-			reuseTypes++
-			nr := nReuse
-			if m := 2 * len(ts.Fields); m > nr {
-				nr = m // every manifest field is aimed at at least twice
-			}
-			reuseTotal += int64(nr)
-			c.Cases("reuse/"+name, nr, func(i int, r *vlib.Rand) { reuseCase(ts, i, r, "") })
-		}
 		if len(envVars) > 0 {
 			c.Cases("env/"+name, nEnv, func(i int, r *vlib.Rand) { envCase(ts, i, r) })
 		}
@@ -843,7 +838,7 @@ func main() {
 		name := names[int(vlib.Mix(uint64(i))%uint64(len(names)))]
 		heldPackCase(fmt.Sprintf("held-parallel#%d", i), name, names, r, true)
 	})
-	c.Note(fmt.Sprintf("manifest: %d types (%d registered packs, %d of them nested into containers), %d leaf patterns; %d types decoded into used objects; environment variables read by lang/pack and its imports: %v", len(names), registered, len(nestedTypes), totalPatterns, reuseTypes, envVars))
+	c.Note(fmt.Sprintf("manifest: %d types (%d registered packs, %d of them nested into containers), %d leaf patterns; environment variables read by lang/pack and its imports: %v", len(names), registered, len(nestedTypes), totalPatterns, envVars))
 
 	sh := int64(c.NShards)
 	total := int64(n) * int64(len(names))
@@ -883,18 +878,11 @@ func main() {
 	whole("zip_compressed_zeros", zn/100)
 	whole("zip_compressed_incompressible", zn/100)
 	// used objects and the environment
-	whole("reuse_cases", reuseTotal/10)
-	whole("reuse_ok", reuseTotal/20)
-	whole("reuse_ok_second-read", reuseTotal/50)
-	whole("reuse_ok_populated", reuseTotal/50)
-	whole("reuse_ok_second_pack_shorter", reuseTotal/100)
-	whole("reuse_ok_second_pack_longer", reuseTotal/100)
-	whole("reuse_kept_contents_rewalked", reuseTotal/20)
 	whole("max_env_variables_found", 1)
 	whole("env_cases", int64(nEnv)*int64(len(names))/10)
 	whole("env_roundtrips_ok", int64(nEnv)*int64(len(names))/20)
 	whole("env_cases_on_types_the_environment_reaches", int64(nEnv)/10)
-	whole("env_cases_with_a_derived_field_zero", int64(nEnv)/10)
+	whole("env_cases_with_a_derived_field_zero", int64(nEnv)/20)
 	if len(envInitReads) > 0 {
 		whole("env_init_child_processes", int64(c.NShards)/2)
 		whole("env_init_roundtrips_ok", int64(nEnv)*int64(len(names))/40)
